@@ -46,11 +46,14 @@ def rand_times(rng, n_changes, tmax=4.0, den=8):
 
 
 def rand_spec(rng, n_total=None, n_demes=None, n_epochs=None, kinds=('kingman', 'beta', 'dirac'),
-              loci=1, exact_sizes=True, names=None, end_time='maybe', size_range=(-3, 3)):
+              loci=1, exact_sizes=True, names=None, end_time='maybe', size_range=(-3, 3), isolation=False):
     n_demes = n_demes or rng.choice([1, 1, 2, 2, 3])
     n_total = n_total or rng.choice([2, 3, 3, 4, 4, 5])
     n_epochs = n_epochs or rng.choice([1, 1, 2, 3])
-    names = (names or POPS)[:n_demes]
+    if names is None:
+        # listing order of the populations is random (not sorted): statistics must not depend on it
+        names = rng.sample(POPS, len(POPS))
+    names = names[:n_demes]
     comp = rng.choice([c for c in compositions(n_total, n_demes)])
     spec = {'n_items': [[p, int(c)] for p, c in zip(names, comp)], 'model': rand_model(rng, kinds)}
     change_times = [0.0] + rand_times(rng, n_epochs - 1)
@@ -76,6 +79,13 @@ def rand_spec(rng, n_total=None, n_demes=None, n_epochs=None, kinds=('kingman', 
         spec['recombination_rate'] = rng.choice([0.0, 0.25, 1.0, 4.0, 0.5])
         spec['n_unlinked'] = 0
         spec['model'] = {'kind': 'kingman'}
+    if n_demes > 1 and isolation and n_epochs > 1:
+        # isolation then contact: no migration in the first epoch (rewards can stall before absorption)
+        t1 = repr(change_times[1])
+        for k in spec['migration_rates']:
+            d = spec['migration_rates'][k]
+            d['0.0'] = 0.0
+            d[t1] = d.get(t1) or 0.5
     if end_time == 'always' or (end_time == 'maybe' and rng.random() < 0.5):
         spec['end_time'] = dyadic(rng, 0.5, 6, 4)
     return spec
